@@ -52,6 +52,9 @@ struct Scenario {
     // lockstep: the signer holds a holder commitment and a counterparty commitment with the
     // same number and the same HTLC set; one of the two confirms
     lockstep: bool,
+    // the signer runs on testnet: a network with compiled-in checkpoints, which
+    // Node::restore_node consults on every restart
+    testnet: bool,
 }
 
 impl Scenario {
@@ -64,7 +67,7 @@ impl Scenario {
     }
     fn label(&self) -> String {
         format!(
-            "{}-{}-{}{}",
+            "{}-{}-{}{}{}",
             if self.closer_cp { "cp" } else { "holder" },
             self.htlcs
                 .iter()
@@ -76,7 +79,8 @@ impl Scenario {
                 .collect::<Vec<_>>()
                 .join(""),
             if self.our_output { "our" } else { "noour" },
-            if self.no_info { "-noinfo" } else if self.lockstep { "-lockstep" } else { "" }
+            if self.no_info { "-noinfo" } else if self.lockstep { "-lockstep" } else { "" },
+            if self.testnet { "-testnet" } else { "" }
         )
     }
 }
@@ -108,10 +112,20 @@ const TO_CP: u64 = 900_000;
 fn make_world(sc: &Scenario) -> World {
     let mut seed = [0u8; 32];
     seed.copy_from_slice(&hex::decode(TEST_SEED[1]).expect("seed"));
-    let mut pw = vharness::World::new(vharness::World::default_policy(), seed, lightning_signer::signer::derive::KeyDerivationStyle::Native);
+    let network = if sc.testnet { lightning_signer::bitcoin::Network::Testnet } else { vharness::NETWORK };
+    let mut pw = vharness::World::new_on(network, lightning_signer::policy::simple_validator::make_default_simple_policy(network), seed, lightning_signer::signer::derive::KeyDerivationStyle::Native);
     // as on mainnet: a disconnection beyond the remembered headers is refused
     pw.config.allow_deep_reorgs = false;
     let node_ctx = TestNodeContext { node: pw.new_node(), secp_ctx: Secp256k1::signing_only() };
+    if sc.testnet {
+        // the tracker has followed a block before the channel exists, as in init_channel: a
+        // tracker at height 0 is "fresh" for restore_node and is moved to the checkpoint by design
+        let mut tracker = node_ctx.node.get_tracker();
+        let prev = tracker.tip().clone();
+        let block = build_block(prev.0, vec![coinbase(1)]);
+        let proof = TxoProof::prove_unchecked(&block, &prev.1, 1);
+        tracker.add_block(block.header, proof).expect("first block");
+    }
     let channel_amount = 3_000_000;
     let stype = SpendType::P2wpkh;
     let incoming = channel_amount + 2_000_000;
@@ -536,6 +550,18 @@ fn watched_proof(
     }
 }
 
+/// a block on top of `prev`, mined at the regtest difficulty on every network (the tracker
+/// accepts any difficulty on testnet, and the testnet genesis difficulty cannot be mined here)
+fn build_block(prev: lightning_signer::bitcoin::block::Header, txs: Vec<Transaction>) -> Block {
+    use lightning_signer::bitcoin::hashes::Hash;
+    let txids: Vec<Txid> = txs.iter().map(|tx| tx.compute_txid()).collect();
+    let root = lightning_signer::bitcoin::merkle_tree::calculate_root(txids.into_iter()).unwrap();
+    let root = lightning_signer::bitcoin::hash_types::TxMerkleNode::from_raw_hash(root.to_raw_hash());
+    let bits = lightning_signer::bitcoin::blockdata::constants::genesis_block(lightning_signer::bitcoin::Network::Regtest).header.bits;
+    let header = mine_header_with_bits(prev.block_hash(), root, bits);
+    Block { header, txdata: txs }
+}
+
 fn coinbase(h: u32) -> Transaction {
     Transaction {
         version: Version::non_standard(0),
@@ -570,6 +596,12 @@ impl Driver {
             mon.as_base().forget_channel();
         }
         Driver { w, direct, mon, watches, seen, dstack: vec![], init, forgot }
+    }
+
+    /// tip, height and the number of remembered headers of the tracker
+    fn tracker_view(&self) -> Value {
+        let t = self.w.node_ctx.node.get_tracker();
+        json!({"height": t.height(), "tip": t.tip().0.block_hash().to_string(), "remembered_headers": t.headers.len()})
     }
 
     /// ChainTracker::headers.len(): how many previous headers the tracker remembers
@@ -627,7 +659,7 @@ impl Driver {
             let mut all = vec![coinbase(h)];
             all.extend_from_slice(txs);
             let prev = self.w.node_ctx.node.get_tracker().tip().0;
-            let block = make_block(prev, all.clone());
+            let block = build_block(prev, all.clone());
             let hash = block.block_hash();
             let mon = self.mon.clone();
             let r = catch_unwind(AssertUnwindSafe(|| match mode {
@@ -657,7 +689,7 @@ impl Driver {
                 let mut all = vec![coinbase(tracker.height() + 1)];
                 all.extend_from_slice(txs);
                 let prev = tracker.tip().clone();
-                let block = make_block(prev.0, all);
+                let block = build_block(prev.0, all);
                 let proof = TxoProof::prove_unchecked(&block, &prev.1, tracker.height() + 1);
                 let r = match mode {
                     Mode::Compact => tracker.add_block(block.header, proof),
@@ -690,7 +722,7 @@ impl Driver {
             let (all, hash) = self.dstack.pop().expect("nothing to remove");
             let mon = self.mon.clone();
             let prev = self.w.node_ctx.node.get_tracker().tip().0;
-            let header = make_block(prev, all.clone()).header;
+            let header = build_block(prev, all.clone()).header;
             let r = catch_unwind(AssertUnwindSafe(|| match mode {
                 Mode::Compact | Mode::Watched => mon.on_remove_block(&all, &hash),
                 Mode::Streamed => {
@@ -786,7 +818,7 @@ impl Driver {
     /// push events without a block start, then the streamed block end (direct mode only)
     fn partial(&mut self, txs: &[Transaction], add: bool) -> Outcome {
         assert!(self.direct);
-        let hash = make_block(self.w.node_ctx.node.get_tracker().tip().0, vec![coinbase(77)]).block_hash();
+        let hash = build_block(self.w.node_ctx.node.get_tracker().tip().0, vec![coinbase(77)]).block_hash();
         let mon = self.mon.clone();
         let r = catch_unwind(AssertUnwindSafe(|| {
             self.push_block(txs, &hash, None, false);
@@ -841,6 +873,7 @@ fn run_case(sc: &Scenario, u: &Universe, steps: &[Step], direct: bool, forgot: b
     let mut n_restarts = 0u64;
     // the window of remembered headers (tracker driver): deliveries and what was observed
     let max_reorg = lightning_signer::chain::tracker::ChainTracker::<ChainMonitor>::MAX_REORG_SIZE as usize;
+    let remembered0 = d.remembered();
     let mut wops: Vec<&str> = vec![];
     let mut wobs: Vec<String> = vec![];
     let mut peak = 0usize;
@@ -854,6 +887,7 @@ fn run_case(sc: &Scenario, u: &Universe, steps: &[Step], direct: bool, forgot: b
         // than MAX_REORG_SIZE below the highest block ever connected)
         let len_before = chain.len();
         let within_window = len_before > 0 && peak - len_before < max_reorg;
+        let _ = remembered0;
         let ok = match st {
             Step::Add(b, mode) => {
                 coq_steps.push(format!("SAdd {}", u.coq_block(b)));
@@ -895,7 +929,20 @@ fn run_case(sc: &Scenario, u: &Universe, steps: &[Step], direct: bool, forgot: b
                 coq_steps.push("SRestart".to_string());
                 jsteps.push(json!({"restart": "persist tracker + channel, restore the node from the store"}));
                 n_restarts += 1;
-                d.restart(sc)
+                let before = d.tracker_view();
+                let r = d.restart(sc);
+                if r == Outcome::Done && admissible && violation.is_none() {
+                    let after = d.tracker_view();
+                    if after != before {
+                        violation = Some(json!({
+                            "what": "a restart from the store changed the tracker's tip / height / remembered headers under the restored monitors; the best chain is no longer the chain the monitors connected",
+                            "step": jsteps.len() - 1,
+                            "before": before,
+                            "after": after,
+                        }));
+                    }
+                }
+                r
             }
         };
         if !direct && ok != Outcome::Panicked {
@@ -1066,7 +1113,7 @@ fn run_case(sc: &Scenario, u: &Universe, steps: &[Step], direct: bool, forgot: b
         "restarts": n_restarts,
         "expected_refusals": expected_refusals,
         "max_reorg_size": max_reorg,
-        "wcoq": if direct || !admissible { Value::Null } else { json!(format!("({}, {})", coq_list(&wops), coq_list(&wobs))) },
+        "wcoq": if direct || !admissible { Value::Null } else { json!(format!("({}, {}, {})", remembered0, coq_list(&wops), coq_list(&wobs))) },
     });
     CaseOut { coq, json, nontrivial: n_removes > 0 && chain.len() + n_removes >= 2, aborted, monitor_violation: violation }
 }
@@ -1077,17 +1124,17 @@ fn scenarios() -> Vec<Scenario> {
     let h = |o: bool, a: u64, p: bool| HtlcSpec { offered: o, amount_sat: a, preimage_known: p };
     let mut v = vec![];
     for closer_cp in [false, true] {
-        v.push(Scenario { closer_cp, htlcs: vec![], our_output: true, no_info: false, lockstep: false });
-        v.push(Scenario { closer_cp, htlcs: vec![h(true, 10_000, closer_cp)], our_output: true, no_info: false, lockstep: false });
-        v.push(Scenario { closer_cp, htlcs: vec![h(true, 10_000, true), h(false, 12_000, true)], our_output: true, no_info: false, lockstep: false });
-        v.push(Scenario { closer_cp, htlcs: vec![h(true, 10_000, false), h(false, 12_000, false)], our_output: true, no_info: false, lockstep: false });
-        v.push(Scenario { closer_cp, htlcs: vec![h(!closer_cp, 11_000, false)], our_output: false, no_info: false, lockstep: false });
-        v.push(Scenario { closer_cp, htlcs: vec![], our_output: false, no_info: false, lockstep: false });
+        v.push(Scenario { closer_cp, htlcs: vec![], our_output: true, no_info: false, lockstep: false, testnet: false });
+        v.push(Scenario { closer_cp, htlcs: vec![h(true, 10_000, closer_cp)], our_output: true, no_info: false, lockstep: false, testnet: false });
+        v.push(Scenario { closer_cp, htlcs: vec![h(true, 10_000, true), h(false, 12_000, true)], our_output: true, no_info: false, lockstep: false, testnet: false });
+        v.push(Scenario { closer_cp, htlcs: vec![h(true, 10_000, false), h(false, 12_000, false)], our_output: true, no_info: false, lockstep: false, testnet: false });
+        v.push(Scenario { closer_cp, htlcs: vec![h(!closer_cp, 11_000, false)], our_output: false, no_info: false, lockstep: false, testnet: false });
+        v.push(Scenario { closer_cp, htlcs: vec![], our_output: false, no_info: false, lockstep: false, testnet: false });
         // both sides' commitment N held, one of them confirms
-        v.push(Scenario { closer_cp, htlcs: vec![h(true, 10_000, true), h(false, 12_000, true)], our_output: true, no_info: false, lockstep: true });
-        v.push(Scenario { closer_cp, htlcs: vec![h(true, 10_000, false), h(false, 12_000, false)], our_output: true, no_info: false, lockstep: true });
-        v.push(Scenario { closer_cp, htlcs: vec![h(!closer_cp, 11_000, closer_cp)], our_output: true, no_info: false, lockstep: true });
-        v.push(Scenario { closer_cp, htlcs: vec![], our_output: true, no_info: false, lockstep: true });
+        v.push(Scenario { closer_cp, htlcs: vec![h(true, 10_000, true), h(false, 12_000, true)], our_output: true, no_info: false, lockstep: true, testnet: false });
+        v.push(Scenario { closer_cp, htlcs: vec![h(true, 10_000, false), h(false, 12_000, false)], our_output: true, no_info: false, lockstep: true, testnet: false });
+        v.push(Scenario { closer_cp, htlcs: vec![h(!closer_cp, 11_000, closer_cp)], our_output: true, no_info: false, lockstep: true, testnet: false });
+        v.push(Scenario { closer_cp, htlcs: vec![], our_output: true, no_info: false, lockstep: true, testnet: false });
     }
     v
 }
@@ -1234,7 +1281,10 @@ fn emit_case(c: &CaseOut, stats: &mut BTreeMap<String, u64>) {
             }
         }
     }
-    if c.json["scenario"].as_str().unwrap().ends_with("-lockstep") {
+    if c.json["scenario"].as_str().unwrap().ends_with("-testnet") {
+        *stats.entry("testnet_cases".into()).or_default() += 1;
+    }
+    if c.json["scenario"].as_str().unwrap().contains("-lockstep") {
         *stats.entry("lockstep_cases".into()).or_default() += 1;
     }
     *stats.entry(format!("steps")).or_default() += c.json["steps"].as_array().unwrap().len() as u64;
@@ -1504,6 +1554,67 @@ fn window(args: &Args) {
     emit("STATS", json!({"domain": "monitor-window", "stats": stats}));
 }
 
+/// signers on testnet (compiled-in checkpoints): restarts at small non-zero heights, then
+/// disconnect the last block and connect a competing one
+fn testnet(args: &Args) {
+    let mut rng = Rng::new(args.seed ^ 0x7e57);
+    let mut stats = BTreeMap::new();
+    let base = scenarios();
+    let picks = [0usize, 2, 10, 12, 16];
+    let mut unis: BTreeMap<usize, (Scenario, Universe)> = BTreeMap::new();
+    for k in 0..args.n {
+        let si = picks[k % picks.len()] % base.len();
+        if !unis.contains_key(&si) {
+            let mut sc = base[si].clone();
+            sc.testnet = true;
+            let w = make_world(&sc);
+            let u = make_universe(&sc, &w);
+            unis.insert(si, (sc, u));
+        }
+        let (sc, u) = &unis[&si];
+        let steps: Vec<Step> = if k < picks.len() {
+            // scripted: funding, a close, restart, disconnect the close, connect the competing close / a later one
+            let has_s = u.txs.contains_key(&S);
+            let close: Vec<u64> = if k % 2 == 0 { vec![M] } else if has_s { vec![C, S] } else { vec![C] };
+            let other: Vec<u64> = if k % 2 == 0 { vec![C] } else { vec![M] };
+            vec![
+                Step::Add(vec![], Mode::Compact),
+                Step::Add(vec![F], Mode::Watched),
+                Step::Add(vec![], Mode::Streamed),
+                Step::Add(close, Mode::Compact),
+                Step::Restart,
+                Step::Remove(Mode::Compact),
+                Step::Add(other, Mode::Watched),
+                Step::Add(vec![], Mode::Compact),
+                Step::Restart,
+                Step::Remove(Mode::Watched),
+                Step::Remove(Mode::Compact),
+            ]
+        } else {
+            let len = 4 + rng.below(8) as usize;
+            let mut steps: Vec<Step> = random_history(&mut rng, u, len, false)
+                .into_iter()
+                .map(|s| match s {
+                    Step::Remove(Mode::Streamed) => Step::Remove(Mode::Compact),
+                    o => o,
+                })
+                .collect();
+            let mut i = 1;
+            while i <= steps.len() {
+                if rng.chance(1, 3) {
+                    steps.insert(i, Step::Restart);
+                    i += 1;
+                }
+                i += 1;
+            }
+            steps
+        };
+        let c = run_case(sc, u, &steps, false, false, true, if k < picks.len() { "testnet-scripted" } else { "testnet-random" });
+        emit_case(&c, &mut stats);
+    }
+    emit("STATS", json!({"domain": "monitor-testnet", "stats": stats}));
+}
+
 fn main() {
     // one line per panic (most are the observations we are after), no backtraces
     std::panic::set_hook(Box::new(|info| {
@@ -1525,6 +1636,7 @@ fn main() {
         "malformed" => random(&args, true),
         "burial" => burial(&args),
         "window" => window(&args),
+        "testnet" => testnet(&args),
         _ => {
             eprintln!("usage: monitor systematic|random|malformed|burial --seed S --n N --tier T");
             std::process::exit(2);
